@@ -285,6 +285,10 @@ M("c19.xpoint.copy.self", "C19", PTPY, "        return EccXPoint(x, self.curve)"
 M("c06.point.neg.inplace", "C06", PTPY, "        np = self.copy()\n        result = neg_func(np._point.get())", "        np = self\n        result = neg_func(np._point.get())", "K-pw|point.value.operators")
 M("c06.xpoint.infinity.copy", "C06", PTPY, "        except ValueError:\n            return self.point_at_infinity()\n        return EccXPoint(x, self.curve)", "        except ValueError:\n            return EccXPoint(0, self.curve)\n        return EccXPoint(x, self.curve)", "K-pw|point.x.copy.independent")
 M("c06.point.eq.swapped.sense", "C06", PTPY, "        return 0 == cmp_func(self._point.get(), point._point.get())", "        return 0 != cmp_func(self._point.get(), point._point.get())", "K-pw|point.compare")
+KDFPY = "lib/Crypto/Protocol/KDF.py"
+M("c12.scrypt.compose.idx", "C12", KDFPY, "        idx = flow * 128 * r\n", "        idx = flow * 128\n", "K-pw|scrypt.composition")
+M("c12.scrypt.compose.order", "C12", KDFPY, "        data_out += [get_raw_buffer(buffer_out)]", "        data_out = [get_raw_buffer(buffer_out)] + data_out", "K-pw|scrypt.composition")
+M("c12.s2v.derive.clobber", "C12", KDFPY, "            final = strxor(padded, self._double(self._cache))", "            self._cache = self._double(self._cache)\n            final = strxor(padded, self._cache)", "SEG|s2v.histories")
 RSAPY = "lib/Crypto/PublicKey/RSA.py"
 M("c07.toy.rsa.crt.h", "C07", RSAPY, "h = ((m2 - m1) * self._u) % self._q", "h = ((m1 - m2) * self._u) % self._q", "K-pw|rsa.toy.decrypt")
 M("c07.toy.rsa.crt.abs", "C07", RSAPY, "h = ((m2 - m1) * self._u) % self._q", "h = (abs(m2 - m1) * self._u) % self._q", "K-pw|rsa.toy.decrypt")
